@@ -6,7 +6,7 @@ import (
 	"go/types"
 	"sort"
 
-	"golang.org/x/tools/go/ssa"
+	"ikeverif/checker/xt/ssa"
 )
 
 // Key-direction tables (shared by C01, C02, C06): which IKESAKey field a function uses when its
